@@ -361,3 +361,79 @@ def buffered_accumulation(ctx, fi, rule):
                'so such a position receives only the LAST of its contributions (numpy.add.at, or adding inside the loop, sums them)'
                % (U(st)[:60], I), construct='accumulation through the index list `%s`' % I)
     return n
+
+
+def stale_pivot(ctx, fi, rule):
+    """`for k in KEYS: if D[k] == D[p]: D[k] = E` relabels the entries of D that carry the label of entry p.  When the loop reaches k == p it
+    overwrites D[p] itself, and every later comparison is made against the NEW label: entries after p keep the old one.  The label has to
+    be read into a local before the loop (`old = D[p]; for k ..: if D[k] == old: ..`).  Reported when p is not the loop variable, is not
+    assigned in the loop, and the comparison reads `D[p]` inside the loop that stores into D."""
+    raw = getattr(fi, 'original', fi)
+    n = 0
+    for lp in [x for x in ast.walk(raw.node) if isinstance(x, ast.For) and isinstance(x.target, ast.Name)]:
+        k = lp.target.id
+        for st in ast.walk(lp):
+            if not (isinstance(st, ast.If) and isinstance(st.test, ast.Compare) and len(st.test.ops) == 1 and isinstance(st.test.ops[0], (ast.Eq, ast.Is))):
+                continue
+            l, r = st.test.left, st.test.comparators[0]
+            for a, b in ((l, r), (r, l)):
+                if not (isinstance(a, ast.Subscript) and isinstance(b, ast.Subscript) and U(a.value) == U(b.value) and isinstance(a.value, ast.Name)):
+                    continue
+                D = a.value.id
+                if not (U(a.slice) == k and isinstance(b.slice, ast.Name) and b.slice.id != k):
+                    continue
+                p = b.slice.id
+                stores = [s_ for s_ in st.body if isinstance(s_, ast.Assign) and len(s_.targets) == 1 and isinstance(s_.targets[0], ast.Subscript)
+                          and U(s_.targets[0].value) == D and U(s_.targets[0].slice) == k]
+                assigned_p = any(isinstance(x, ast.Name) and x.id == p and isinstance(x.ctx, ast.Store) for x in ast.walk(lp))
+                if not stores or assigned_p:
+                    continue
+                n += 1
+                ctx.ob(rule, fi, st, False,
+                       'the loop over `%s` relabels the entries of `%s` equal to `%s[%s]` - and `%s[%s]` is one of the entries it overwrites: from that '
+                       'iteration on the comparison is made against the new label, and the entries after `%s` keep the old one (read the label into a '
+                       'local before the loop)' % (U(lp.iter)[:30], D, D, p, D, p, p), construct='relabelling against `%s[%s]`' % (D, p))
+    return n
+
+
+def horner_index_dtype(ctx, fi, rule):
+    """A flat cell index accumulated as `idx = idx * n + col` takes its element type from its FIRST value.  Columns read from a data frame
+    (`.values`) have the frame's type - uint8 / int8 for small public data - and the accumulation then wraps around silently once the index
+    exceeds that type's range.  The accumulator must start from an explicit platform-integer cast (`.astype(int)` / int64)."""
+    raw = getattr(fi, 'original', fi)
+    n = 0
+    for st in ast.walk(raw.node):
+        acc = None
+        if isinstance(st, ast.Assign) and len(st.targets) == 1 and isinstance(st.targets[0], ast.Name) and isinstance(st.value, ast.BinOp) \
+                and isinstance(st.value.op, ast.Add) and isinstance(st.value.left, ast.BinOp) and isinstance(st.value.left.op, ast.Mult) \
+                and st.targets[0].id in (U(st.value.left.left), U(st.value.left.right)):
+            acc = st.targets[0].id
+        if acc is None:
+            continue
+        inits = [a for a in ast.walk(raw.node) if isinstance(a, ast.Assign) and len(a.targets) == 1 and U(a.targets[0]) == acc and a is not st]
+        if len(inits) != 1:
+            continue
+        v = inits[0].value
+        names = {U(a.targets[0]): a.value for a in ast.walk(raw.node) if isinstance(a, ast.Assign) and len(a.targets) == 1 and isinstance(a.targets[0], ast.Name)}
+
+        def from_frame(e, depth=0):
+            if depth > 4:
+                return False
+            for x in ast.walk(e):
+                if isinstance(x, ast.Attribute) and x.attr in ('values',) or (isinstance(x, ast.Call) and U(x.func).endswith('to_numpy')):
+                    return True
+                if isinstance(x, ast.Name) and x.id in names and x.id != acc and from_frame(names[x.id], depth + 1):
+                    return True
+            return False
+        cast = any(isinstance(x, ast.Call) and isinstance(x.func, ast.Attribute) and x.func.attr == 'astype' and x.args
+                   and U(x.args[0]) in ('int', 'np.int64', 'np.intp', 'numpy.int64', "'int64'") for x in ast.walk(v))
+        zeros = isinstance(v, ast.Call) and U(v.func) in ('np.zeros', 'numpy.zeros') and any(k.arg == 'dtype' and U(k.value) in ('int', 'np.int64', 'np.intp') for k in v.keywords)
+        if not from_frame(v) and not cast and not zeros:
+            continue
+        n += 1
+        ctx.ob(rule, fi, inits[0], cast or zeros,
+               'flat cell index `%s` accumulated as `%s`: it starts as `%s`, %s' % (acc, U(st)[:50], U(v)[:50],
+               'cast to the platform integer' if (cast or zeros) else 'which has the element type of the data frame - for uint8 / int8 columns the index '
+               'wraps around as soon as it exceeds that type\'s range, and records are counted in the wrong cells'),
+               construct='element type of the cell index `%s`' % acc)
+    return n
